@@ -211,5 +211,52 @@ Proof.
                forall i, (i < length l)%nat -> i <> j -> nth i (map ew ts) 0 == nth i (map elw l) 0)) with (s' := s') (cs := cs); auto.
   apply arr_set1_s; try assumption. intros ts j s0 _ Lt Hj Ej Uj Uo. exists j, ts. auto 10.
 Qed.
+(* ---- public indexes and 2-D index tuples with a public row ---- *)
+(* a public index is Python list indexing: negative indexes count from the end, anything else raises; nothing is emitted *)
+Lemma py_index_spec len k j : py_index len k = Some j <->
+  ((0 <= k < len /\ j = Z.to_nat k) \/ (- len <= k < 0 /\ j = Z.to_nat (len + k))).
+Proof.
+  unfold py_index. destruct (- len <=? k) eqn:A; destruct (k <? len) eqn:B; cbn [andb]; split; intros H;
+    try discriminate; try (destruct H as [[H _]|[H _]]; lia).
+  - inversion H; subst j. assert (0 < len) by lia. destruct (Z_lt_le_dec k 0) as [N|N].
+    + right. split; [lia|]. f_equal. rewrite <- (Z.mod_unique_pos k len (-1) (len + k)); lia.
+    + left. split; [lia|]. f_equal. apply Z.mod_small. lia.
+  - f_equal. assert (0 < len) by lia. destruct H as [[H E]|[H E]]; subst j; f_equal.
+    + apply Z.mod_small. lia.
+    + rewrite <- (Z.mod_unique_pos k len (-1) (len + k)); lia.
+Qed.
+Theorem arr_get1_public (l : list pyval) k j : py_index (Z.of_nat (length l)) k = Some j ->
+  run (arr_get1 c l (PInt k)) s = (inl (nth j l PNone), s, []).
+Proof. intros H. unfold arr_get1. rewrite H. reflexivity. Qed.
+Theorem arr_set1_public (l : list pyval) k j v : py_index (Z.of_nat (length l)) k = Some j ->
+  run (arr_set1 c l (PInt k) v) s = (inl (upd_nth l j v), s, []).
+Proof. intros H. unfold arr_set1. rewrite H. reflexivity. Qed.
+Theorem arr_get1_public_out_of_range (l : list pyval) k : py_index (Z.of_nat (length l)) k = None ->
+  exists s' cs, run (arr_get1 c l (PInt k)) s = (inr IndexError, s', cs).
+Proof. intros H. unfold arr_get1. rewrite H. eexists. eexists. reflexivity. Qed.
+
+(* A[k, x] / A[k, x] = v with a public row k and a secret column x: the read / write of the row at the secret column *)
+Theorem arr_get_row_forced (rows : list pyval) k j b (row : list (slc + Z)) x r s' cs :
+  py_index (Z.of_nat (length rows)) k = Some j -> nth j rows PNone = PArr b (map inj row) -> row <> [] -> Z.of_nat (length row) <= p ->
+  run (arr_get c rows [PInt k; PLC x]) s = (inl r, s', cs) -> sat cs ->
+  exists i t, (i < length row)%nat /\ r = PLC t /\ ew x == Z.of_nat i /\ ew t == nth i (map elw row) 0.
+Proof.
+  intros Hk Hr Hne Hn R H. cbn [arr_get] in R. unfold arr_get1 at 1 in R. rewrite Hk in R. cbn [bind ret] in R. rewrite Hr in R.
+  cbn [arr_get] in R. exact (arr_get1_forced row x r s' cs Hne Hn R H).
+Qed.
+Theorem arr_set_row_forced (rows : list pyval) k j b (row : list (slc + Z)) x v r s' cs :
+  py_index (Z.of_nat (length rows)) k = Some j -> nth j rows PNone = PArr b (map inj row) -> row <> [] -> Z.of_nat (length row) <= p ->
+  Forall (fun old => same_val (PLC v) (inj old) = false) row ->
+  run (arr_set c rows [PInt k; PLC x] (PLC v)) s = (inl r, s', cs) -> sat cs ->
+  exists i ts, r = upd_nth rows j (PArr false (map PLC ts)) /\ length ts = length row /\ (i < length row)%nat /\ ew x == Z.of_nat i /\
+               nth i (map ew ts) 0 == ew v /\ forall i', (i' < length row)%nat -> i' <> i -> nth i' (map ew ts) 0 == nth i' (map elw row) 0.
+Proof.
+  intros Hk Hr Hne Hn Hd R H.
+  apply (wps_sound w _ _ (arr_set c rows [PInt k; PLC x] (PLC v)) s (fun r _ => exists i ts, r = upd_nth rows j (PArr false (map PLC ts)) /\ length ts = length row /\ (i < length row)%nat /\ ew x == Z.of_nat i /\
+               nth i (map ew ts) 0 == ew v /\ forall i', (i' < length row)%nat -> i' <> i -> nth i' (map ew ts) 0 == nth i' (map elw row) 0)) with (s' := s') (cs := cs); auto.
+  cbn [arr_get arr_set]. unfold arr_get1 at 1. rewrite Hk. cbn [bind ret]. rewrite Hr. cbn [arr_set].
+  apply wps_bind. apply arr_set1_s; try assumption. intros ts i s0 _ Lt Hi Ei Ui Uo.
+  unfold arr_set1. rewrite Hk. cbn [wps ret]. exists i, ts. auto 10.
+Qed.
 End Run.
 End AM.
